@@ -493,6 +493,7 @@ pub fn gen_plan(seed: u64, p: &Profile) -> Plan {
         crash_at: None,
         dense_reads: true,
         audit: true,
+        stop_on: String::new(),
     };
     Plan { engine: "core".into(), actions, knobs, extra: serde_json::Value::Null }
 }
